@@ -2,7 +2,8 @@
    faithful model break the invariant: the witnesses of the C02 _refuted theorems.  Each history is also in the
    corpus of harness/c02.py, where model and real pydoctor agree on it state for state. *)
 From Coq Require Import ZArith NArith List Bool Lia.
-From PydoctorVerif Require Import Base.Sexp Model.Registry Spec.RegistryInv Proofs.RegistryBase Proofs.RegistryProofs.
+From PydoctorVerif Require Import Base.Sexp Model.Registry Spec.RegistryInv Proofs.RegistryBase Proofs.RegistryProofs
+     Proofs.RegistryHistory.
 Import ListNotations.
 Local Open Scope N_scope.
 
@@ -83,4 +84,34 @@ Proof.
   split; [vm_compute; reflexivity|]. split; [vm_compute; reflexivity|].
   exists 0, file_index. split; [exists [(sym_index, [])]; vm_compute; reflexivity|].
   split; [vm_compute; reflexivity|]. vm_compute. right. right. right. right. right. left. reflexivity.
+Qed.
+
+(* ---- the same witnesses as single steps: the state before satisfies the invariant (its history is guarded:
+        C02_inv_history_exec), the unguarded operation completes, the state after does not ---- *)
+Lemma final_guarded_inv : forall ops, run_ops init ops 0 true = (final ops, None, true) -> Inv (final ops).
+Proof. intros ops H. exact (proj2 (run_ops_guarded_total ops init 0 (final ops) None inv_init H)). Qed.
+
+Definition breaks (pre : list op) (o : op) : Prop :=
+  Inv (final pre) /\ guard_b (final pre) o = false /\ step (final pre) o = Some (final (pre ++ [o])) /\
+  ~ Inv (final (pre ++ [o])).
+
+Lemma dup_nested_step : breaks (removelast ops_dup_nested) (AddChild CClass b_ 0 0).
+Proof.
+  split; [apply final_guarded_inv; vm_compute; reflexivity|]. split; [vm_compute; reflexivity|].
+  split; [vm_compute; reflexivity | exact (proj2 dup_nested_witness)].
+Qed.
+Lemma reparent_collision_step : breaks (removelast ops_reparent_collision) (Reparent 4 0 c_).
+Proof.
+  split; [apply final_guarded_inv; vm_compute; reflexivity|]. split; [vm_compute; reflexivity|].
+  split; [vm_compute; reflexivity | exact (proj2 (proj2 reparent_collision_witness))].
+Qed.
+Lemma dup_root_step : breaks (removelast ops_dup_root) (AddModule true a_ None).
+Proof.
+  split; [apply final_guarded_inv; vm_compute; reflexivity|]. split; [vm_compute; reflexivity|].
+  split; [vm_compute; reflexivity | exact (proj2 (proj2 (proj2 dup_root_witness)))].
+Qed.
+Lemma module_reexport_step : breaks (removelast ops_module_reexport) (Reparent 1 2 b_).
+Proof.
+  split; [apply final_guarded_inv; vm_compute; reflexivity|]. split; [vm_compute; reflexivity|].
+  split; [vm_compute; reflexivity | exact (proj2 module_reexport_witness)].
 Qed.
